@@ -87,6 +87,11 @@ def run_case(case, ctx):
                   divergence_metric=str(rng.choice(["kl", "intersection"])), sample_period=sp, online_scaling=bool(rng.integers(0, 2)))
         d = int(rng.integers(2, 7))
         data = gen_stream(rng, d, int(rng.integers(5, 11)) * w, w)
+        if kw["online_scaling"] and rng.random() < 0.15:
+            # a feature that is constant while the first reference window is collected (a sensor not yet switched on) and varies later
+            jc = int(rng.integers(0, d))
+            data[: int(w * float(rng.uniform(2.0, 3.2))), jc] = float(np.round(rng.normal(0, 2), 1))
+            ctx.count("streams_with_a_feature_constant_at_first")
         if rng.random() < 0.15:
             # dtype varies along the stream: the first two windows are whole numbers handed over with an integer dtype
             data[: 2 * w] = np.round(data[: 2 * w] * 2)
@@ -97,7 +102,19 @@ def run_case(case, ctx):
     ctx.count("scaling_on_cases" if kw["online_scaling"] else "scaling_off_cases")
     drifts = 0
     scored_after_rebuild = False
+    refuse_at = set()
+    if "literal" not in case and len(data) % 3 == 0:
+        refuse_at = {int(v) for v in np.random.default_rng([len(data), 11]).integers(1, len(data), size=1 + len(data) % 4)}
     for i, x in enumerate(data):
+        if i in refuse_at:
+            # a malformed call in the middle of the stream (two rows at once / one column too many): refused, and not a sample - the check
+            # schedule, the windows and the counters go on as if it had never been made
+            bad = np.vstack([x, x + 1.0]) if i % 2 else np.append(x, 0.5).reshape(1, -1)
+            try:
+                det.update(bad)
+                ctx.count("malformed_samples_accepted")
+            except ValueError:
+                ctx.count("malformed_samples_refused")
         nsc = len(getattr(det, "_change_score", [0]))
         det.update(x.reshape(1, -1).astype(np.int64) if i < int_head else x.reshape(1, -1).copy())
         if i < int_head and i == 0:
